@@ -113,11 +113,11 @@ class NSGCoordinator(GameCoordinator):
                         #return value back to the original
                         net_obj.value += 256
         known_services ={}
-        for ip, service_list in view["known_services"]:
-            known_services[self._ip_mapping[ip]] = service_list
+        for ip, service_list in view["known_services"].items():
+            known_services[self._ip_mapping[ip]] = set(service_list)
         known_data = {}
-        for ip, data_list in view["known_data"]:
-            known_data[self._ip_mapping[ip]] = data_list
+        for ip, data_list in view["known_data"].items():
+            known_data[self._ip_mapping[ip]] = set(data_list)
         game_state = GameState(controlled_hosts, known_hosts, known_services, known_data, known_networks)
         self.logger.info(f"Generated GameState:{game_state}")
         return game_state
